@@ -101,6 +101,10 @@ def _check(prog, rep):
                  "fill receives %s; expected text.strip_suffix(detected.line_ending.as_str()).unwrap_or(&text)" % D(args[0]), site=site)
         res = models.returned_string_root(prog, body) if _single_root(prog, body) else None
         evs = [(n, a[1]) for (b_, n, a, _r) in pv.events(_result_roots(prog, body)) if path.index(b_) > path.index(calls[0])]
+        ret0 = pv.value_before_term((0, ()), path[-1])
+        if ret0[0] == "call" and ret0[1] == "Add::add" and len(ret0[2]) == 2 and ret0[2][0][0] == "call" \
+                and ret0[2][0][1] == "crate::fill::fill" and not evs:
+            evs = [("String::push_str", ret0[2][1])]       # `fill(..) + ending` is fill(..) followed by push_str(ending)
         if st is None:
             r3.check(False, "branch", "", "", "refill does not branch on whether the detected ending was stripped", site=site)
             continue
@@ -111,6 +115,8 @@ def _check(prog, rep):
                                                                            [(n, D(a)) for n, a in evs], [(n, D(a)) for n, a in exp]), site=site)
         # what is returned is the result of that call (plus the appended ending)
         ret = pv.value_before_term((0, ()), path[-1])
+        if ret[0] == "call" and ret[1] == "Add::add" and len(ret[2]) == 2:
+            ret = ret[2][0]
         isfill = lambda v: v[0] == "call" and v[1] == "crate::fill::fill"
         okret = isfill(ret)
         if not okret and ret[0] in ("mut", "phi"):
